@@ -14,7 +14,7 @@ from .report import Rule
 from .rules_common import rules_of
 from .rules_common import (call_arg, digest_checked_before_delete, MUT, primary, base_class, site_text, site_func, site_loc, resource_hits, func_nodes,
                            ends_in_raise)
-from .rules_paths import Q, ALL_MODES, all_events, probe_atoms
+from .rules_paths import Q, ALL_MODES, all_events, probe_atoms, probe_first, probe_last
 from .terms import AnalysisError, show, showv, tag, C, P, V, NONE, EMPTY, classify, subterms
 
 DOC_DEFAULTS = ["md5", "sha1", "sha256", "sha384", "sha512"]  # hashstore.py docstring of store_object
@@ -51,7 +51,7 @@ def check_C01(A: Analysis, tier):
     rules = []
     ra = Rule("C01", "C01.a", "every attribute Stream uses on the wrapped object belongs to the interface of the "
               "stream type _check_arg_data admits, or is guarded (hasattr / try catching AttributeError)", floor=5)
-    cad = A.p.func(Q("_check_arg_data"))
+    cad = A.impl("_check_arg_data")
     admitted = sorted({norm(c.args[1]) for c in ast.walk(cad.node)
                        if isinstance(c, ast.Call) and norm(c.func) == "isinstance" and len(c.args) == 2})
     if not any("Buffered" in a or "IOBase" in a for a in admitted):
@@ -266,7 +266,7 @@ def check_C01(A: Analysis, tier):
 
     if not rest or not any(_restored(i) for i in func_nodes(itf, ast.If)):
         rd1.fail(itf, "self._obj.seek(self._pos)", "after reading, a caller-owned stream is not returned to its original offset", A.p.loc(itf, itf.node))
-    cb = A.p.func(Q("_cast_to_bytes"))
+    cb = A.impl("_cast_to_bytes")
     pn = cb.node.args.args[0].arg
     rets = [r for r in ast.walk(cb.node) if isinstance(r, ast.Return)]
     convs = [c for c in ast.walk(cb.node) if isinstance(c, ast.Call) and (norm(c.func) == "bytes" or (isinstance(c.func, ast.Attribute) and c.func.attr == "encode"))]
@@ -1063,7 +1063,7 @@ def check_C13(A: Analysis, tier):
                         rc.ob()
                         # (metadata has no "is something at the destination" test: the temp file must be gone at every give-up; the
                         # None-correlated continuations keep `realpath = None` of _delete's look-up apart from the found case)
-                        absent = ent == "metadata" or any(F.implied(s_.facts, a_) is False for a_ in probe_atoms(s_.facts, "isfile", dest_cls))
+                        absent = ent == "metadata" or any(F.implied(s_.facts, a_) is False for a_ in probe_last(s_.facts, "isfile", dest_cls))
                         left = [t for t in s_.tmps if classify(t).cls == "TMP" and classify(t).key == C(ent)]
                         if absent and left:
                             rc.fail(fn, rn_, "after a failed move (nothing at the permanent address) the handler gives up here while the temp file can "
@@ -1489,7 +1489,7 @@ def check_C17(A: Analysis, tier):
               "_check_integer type and < 1; _check_arg_data the three accepted types and the empty string", floor=3)
     # what a checker has established when it returns normally is read off the facts of its normal exit (whatever the
     # spelling, operand order or nesting of its tests)
-    cs = A.p.func(Q("_check_string"))
+    cs = A.impl("_check_string")
     it_s = A.run(Q("_check_string"), "th")
     sp = cs.node.args.args[0].arg
     normal = [st_ for k_, l_, st_, rv_ in it_s.exits if k_ == "return"]
@@ -1520,7 +1520,7 @@ def check_C17(A: Analysis, tier):
         rc.fail(cs, "return", "_check_string never returns normally", A.p.loc(cs, cs.node))
     if not any(k_ == "raise" and l_ == "ValueError" for k_, l_, st_, rv_ in it_s.exits):
         rc.fail(cs, "raise ValueError", "_check_string no longer raises ValueError", A.p.loc(cs, cs.node))
-    ci = A.p.func(Q("_check_integer"))
+    ci = A.impl("_check_integer")
     ip = ci.node.args.args[0].arg
 
     def size_given(atom):
@@ -1551,7 +1551,7 @@ def check_C17(A: Analysis, tier):
             rc.fail(ci, "size < 1", "_check_integer no longer rejects non-positive sizes", A.p.loc(ci, ci.node))
     if not normal_i:
         rc.fail(ci, "return", "_check_integer never returns normally for a given size", A.p.loc(ci, ci.node))
-    cd = A.p.func(Q("_check_arg_data"))
+    cd = A.impl("_check_arg_data")
     types = sorted({norm(c.args[1]) for c in ast.walk(cd.node) if isinstance(c, ast.Call) and norm(c.func) == "isinstance" and len(c.args) == 2})
     rc.inst(f"_check_arg_data admits {types}")
     rc.ob(2)
